@@ -125,6 +125,9 @@ var hostileAddr = []string{"x@99999999999999999999999999", "a/b/c@18446744073709
 	"a/b/c@", "@", "@1.0.0", "a/b/c@1.0.0//", "a/b/c@v1.0.0", "::", "git::", "git::://", "://", "//", "?", "#", "%", "git::%zz", "https://[::1", "https://%41:80/",
 	"github.com/", "github.com//", "github.com/a/", "gitlab.com/a/b/../c", ".", "..", "./", "../", ".//", "./..", "\x00", "a\x00b/c/d", strings.Repeat("a/", 500),
 	"registry.terraform.io/a/b/c", "xn--/a/b/c", "a--b.example.com/a/b/c", "-.example.com/a/b/c", "example.com:99999999999/a/b/c", "１.example.com/a/b/c",
+	// internationalised host labels of lengths no registry has: around the limits of the punycode coder and of DNS
+	"é" + strings.Repeat("h", 62) + ".example.com/a/b/c", "é" + strings.Repeat("h", 300) + ".example.com/a/b/c", "퇑" + strings.Repeat("H", 1100) + "./0/0/0",
+	"é" + strings.Repeat("h", 2500) + ".example.com/a/b/c", strings.Repeat("é", 700) + ".example.com/a/b/c@1.0.0", "xn--" + strings.Repeat("a", 1200) + ".example.com/a/b/c",
 	"git::https://example.com/x?ref=%zz", "git::https://example.com/x?%", "https://example.com/x.tgz?archive=%", "git::ssh://", "git::https://:0/"}
 
 func TestPropAddr(t *testing.T) {
